@@ -155,6 +155,27 @@ func FamilyName(thorough bool) []*Conv {
 			Decls:     "type PFXIn struct{ A int }\ntype PFXOut struct{ A int }\n", Spec: &Spec{},
 		})
 	}
+	// unnamed types that have to be spelled out in the emitted code (signatures, make, composite positions):
+	// struct tags, embedded fields (tagged or not), channel directions, variadic and multi-result functions,
+	// interfaces with methods, instantiated generics - the rendered type must be the declared one
+	zoo := "type PFXEmb struct{ V int }\ntype PFXBox[T any] struct{ V T }\n"
+	tagged := "struct {\n\t\tPFXEmb `json:\"emb\"`\n\t\tN      int `json:\"n\" yaml:\"n\"`\n\t\tS      string\n\t}"
+	for _, f := range []string{"struct", "function", "variable"} {
+		for _, sh := range []struct{ name, t string }{
+			{"elem", "[]" + tagged}, {"mapval", "map[string]" + tagged}, {"ptr", "*" + tagged}, {"top", tagged}, {"nested", "[]map[string]*" + tagged},
+		} {
+			out = append(out, &Conv{
+				ID: "name/rendered_tagged_embedded_" + sh.name + "/" + f, Family: "name", Format: f,
+				Params: "source " + sh.t, Results: sh.t, Decls: zoo, Spec: &Spec{},
+			})
+		}
+		exotic := "struct {\n\t\tIn   <-chan int\n\t\tOut  chan<- string\n\t\tBoth chan *PFXEmb\n\t\tF    func(a int, rest ...string) (bool, error)\n\t\tI    interface{ M(x int) string }\n\t\tB    PFXBox[[]int]\n\t\tA    [3]*int\n\t\tE    interface{}\n\t}"
+		out = append(out, &Conv{
+			ID: "name/rendered_exotic_types/" + f, Family: "name", Format: f,
+			Params: "source map[string]" + exotic, Results: "map[PFXKeyT]" + exotic, Decls: zoo + "type PFXKeyT string\n",
+			ConvLines: []string{"skipCopySameType"}, Spec: &Spec{SkipCopy: true},
+		})
+	}
 	// custom struct name / several converters in one file are exercised by every group of the other families
 	out = append(out, &Conv{
 		ID: "name/custom_struct_name/struct", Family: "name", Format: "struct",
